@@ -50,26 +50,19 @@ PKG_FAIL_KINDS = {
     "initfails_sub_abs": False,     # import <pkg>.c14helper             -> the same
     "initfails_sibling_abs": True,  # import <top>.c14helpers            -> ModuleNotFoundError(name=<top>.c14helpers)
     "initfails_sibling_rel": True,  # from ..c14helpers import X         -> the same
-    "initfails_noname": False,      # raise ImportError(...)             -> e.name is None
-    "initfails_from_other": False,  # from os import c14_nothing         -> ImportError(name="os")
+    "initfails_noname": False,      # raise ImportError(...)             -> plain ImportError, e.name is None
+    "initfails_mnf_noname": False,  # raise ModuleNotFoundError(...)     -> e.name is None
+    "initfails_named_pkg": False,   # raise ImportError(..., name=<pkg>) -> plain ImportError naming the package
+    "initfails_from_other": False,  # from os import c14_nothing         -> plain ImportError(name="os")
+    "initfails_fromdot": False,     # from . import c14helper            -> plain ImportError(name=<pkg>)
+    "topfails_fromdot": True,       # the parent's __init__ does "from . import c14x" -> plain ImportError(name=<top>)
     "topfails_exc": True,           # the parent's __init__ raises ValueError
     "topfails_dep": True,           # the parent's __init__ imports a missing top-level module
     "topfails_rel": True,           # the parent's __init__ does "from .c14x import y"
 }
-# Layouts on which the library as it is departs from the property (reported, see notes_c14.md); they are part of the
-# vocabulary (writer, model, oracle, replay) but are drawn by the generator only once their fingerprint is listed as
-# an open finding in known_findings.json.
-FP_FROMDOT = "package-import-error-naming-package-tolerated"
-FP_MISSING_MID = "missing-intermediate-package-raised"
-CANDIDATE_KINDS = {
-    "initfails_fromdot": FP_FROMDOT,     # from . import c14helper -> ImportError(name=<pkg>): taken for a missing package
-    "missing_mid": FP_MISSING_MID,       # <top>.mid.<pkg>, <top> exists, <top>.mid does not: raises although only a package is missing
-}
-
-
 def pkg_fails(kind):
     """importing the package fails although the package exists"""
-    return kind in PKG_FAIL_KINDS or kind == "initfails_fromdot"
+    return kind in PKG_FAIL_KINDS
 
 
 def pkg_absent(kind):
@@ -148,7 +141,11 @@ def gen_layout(r, idx):
         pkg["kind"] = "missing_sub"
         pkg["dotted"] = True
         return pkg
-    if k < 0.12:
+    if k < 0.06:
+        pkg["kind"] = "missing_mid"     # <top>.mid.<pkg>: <top> exists, <top>.mid does not
+        pkg["dotted"] = True
+        return pkg
+    if k < 0.135:
         pkg["kind"] = r.choice(sorted(PKG_FAIL_KINDS))
         if PKG_FAIL_KINDS[pkg["kind"]]:
             pkg["dotted"] = True
@@ -371,7 +368,16 @@ EDGE_CASES = [
     # ... an ImportError without a name, or one naming an unrelated module
     (False, [], [], {"kind": "initfails_noname"}),
     (False, [], [], {"kind": "initfails_from_other"}),
-    # ... and the packages that do not exist at all
+    (False, [], [], {"kind": "initfails_mnf_noname"}),
+    # ... a plain ImportError (not ModuleNotFoundError) that names the package itself or its parent
+    (False, [("alpha", None, [("A", "one", None, None, False)])], [], {"kind": "initfails_fromdot"}),
+    (False, [], [], {"kind": "initfails_fromdot", "dotted": True}),
+    (True, [("alpha", None, [("A", "one", None, None, False)])], [["start", None, None, 0], ["disable"]], {"kind": "initfails_fromdot"}),
+    (False, [], [], {"kind": "initfails_named_pkg"}),
+    (False, [], [], {"kind": "topfails_fromdot", "dotted": True}),
+    # ... and the packages that do not exist at all, at any level of the dotted name
+    (False, [], [["start", None, None, 0], ["periodic", 1000], ["disable"]], {"kind": "missing_mid", "dotted": True}),
+    (True, [], [], {"kind": "missing_mid", "dotted": True}),
     (False, [], [["start", None, None, 0], ["disable"]], {"kind": "missing"}),
     (False, [], [], {"kind": "missing", "dotted": True}),
     (False, [], [], {"kind": "missing_sub", "dotted": True}),
@@ -410,34 +416,41 @@ def pkg_import_name(pkg):
 
 def expected_import(pkg):
     """what importlib.import_module(<the package>) is meant to do on this layout:
-    ["ok"] | ["importerror", e.name] | ["other"]"""
+    ["ok"] | ["importerror", is it a ModuleNotFoundError, e.name] | ["other"]"""
     kind = pkg["kind"]
     name = pkg_import_name(pkg)
     top = pkg_top(pkg)
+    MNF, PLAIN = True, False
     if kind == "present":
         return ["ok"]
     if kind == "missing":
-        return ["importerror", name.split(".")[0]]
+        return ["importerror", MNF, name.split(".")[0]]
     if kind == "missing_sub":
-        return ["importerror", name]
+        return ["importerror", MNF, name]
     if kind == "missing_mid":
-        return ["importerror", top + ".mid"]
+        return ["importerror", MNF, top + ".mid"]
     if kind in ("initfails_exc", "topfails_exc"):
         return ["other"]
     if kind in ("initfails_dep", "topfails_dep"):
-        return ["importerror", "c14_no_such_dependency"]
+        return ["importerror", MNF, "c14_no_such_dependency"]
     if kind in ("initfails_sub_rel", "initfails_sub_abs"):
-        return ["importerror", name + ".c14helper"]
+        return ["importerror", MNF, name + ".c14helper"]
     if kind in ("initfails_sibling_abs", "initfails_sibling_rel"):
-        return ["importerror", (top + ".c14helpers") if pkg["dotted"] else top]
+        return ["importerror", MNF, (top + ".c14helpers") if pkg["dotted"] else top]
     if kind == "initfails_noname":
-        return ["importerror", None]
+        return ["importerror", PLAIN, None]
+    if kind == "initfails_mnf_noname":
+        return ["importerror", MNF, None]
+    if kind == "initfails_named_pkg":
+        return ["importerror", PLAIN, name]
     if kind == "initfails_from_other":
-        return ["importerror", "os"]
+        return ["importerror", PLAIN, "os"]
     if kind == "topfails_rel":
-        return ["importerror", top + ".c14x"]
+        return ["importerror", MNF, top + ".c14x"]
     if kind == "initfails_fromdot":
-        return ["importerror", name]
+        return ["importerror", PLAIN, name]
+    if kind == "topfails_fromdot":
+        return ["importerror", PLAIN, top]
     return ["?"]
 
 
@@ -460,6 +473,10 @@ def init_source(pkg):
         src += ("from ..c14helpers import SOMETHING\n" if pkg["dotted"] else "import %s.c14helpers\n" % pkg_top(pkg))
     elif kind == "initfails_noname":
         src += "raise ImportError('c14-pkg-fail')\n"
+    elif kind == "initfails_mnf_noname":
+        src += "raise ModuleNotFoundError('c14-pkg-fail')\n"
+    elif kind == "initfails_named_pkg":
+        src += "raise ImportError('c14-pkg-fail', name=%r)\n" % name
     elif kind == "initfails_from_other":
         src += "from os import c14_nothing\n"
     elif kind == "initfails_fromdot":
@@ -478,6 +495,8 @@ def top_init_source(pkg):
         return "import c14_no_such_dependency\n"
     if kind == "topfails_rel":
         return "from .c14x import SOMETHING\n"
+    if kind == "topfails_fromdot":
+        return "from . import c14x\n"
     return ""
 
 
@@ -609,13 +628,13 @@ def forget_modules(name):
 
 def probe_import(name):
     """what importlib.import_module(name) does -- the input of the model's test on e.name, observed like the glob
-    order: ["ok"] | ["importerror", e.name] | ["other"]"""
+    order: ["ok"] | ["importerror", isinstance(e, ModuleNotFoundError), e.name] | ["other"]"""
     import importlib
     try:
         importlib.import_module(name)
         r = ["ok"]
     except ImportError as e:
-        r = ["importerror", e.name if isinstance(e.name, str) else None]
+        r = ["importerror", isinstance(e, ModuleNotFoundError), e.name if isinstance(e.name, str) else None]
     except Exception:
         r = ["other"]
     forget_modules(name)
@@ -954,7 +973,7 @@ def package_term(case, obs):
     name = q(pkg_import_name(pkg))
     imp = obs["imp"]
     if imp[0] == "importerror":
-        return "%s, (ImportRaisesImportError %s)" % (name, coq_opt(imp[1], q))
+        return "%s, (ImportRaisesImportError %s %s)" % (name, coq_bool(imp[1]), coq_opt(imp[2], q))
     if imp[0] == "other":
         return "%s, ImportRaisesOther" % name
     by_stem = {m["stem"]: m for m in pkg["modules"]}
@@ -1064,7 +1083,7 @@ def oracle(case, obs, base):
         if any_fault and not raised:
             what = ("duplicate-not-raised" if dup else "several-defaults-not-raised" if ndef > 1 else
                     "import-failure-not-raised" if import_fault else "ctor-failure-not-raised" if ctor_fault else
-                    CANDIDATE_KINDS.get(kind, "package-import-failure-not-raised"))
+                    "package-import-failure-not-raised")
             text = "no FMS, layout has a start-up fault (%s) but the constructor did not raise" % what
             if initfail:
                 text = ("no FMS, the package %s exists but importing it fails (%s: import_module raises %s), and "
@@ -1072,9 +1091,10 @@ def oracle(case, obs, base):
                         % (pkg_import_name(pkg), kind, import_text(obs.get("imp"))))
             v.append((what, text))
         if not any_fault and raised:
-            if kind == "missing_mid":
-                v.append((FP_MISSING_MID, "no FMS, the only thing wrong is that the package %s does not exist (its parent "
-                          "%s.mid is missing), yet the constructor raised %s" % (pkg_import_name(pkg), pkg_top(pkg), obs["exc"])))
+            if pkg_absent(kind):
+                v.append(("missing-package-raised", "no FMS, the only thing wrong is that the package %s does not exist "
+                          "(import_module raises %s), yet the constructor raised %s"
+                          % (pkg_import_name(pkg), import_text(obs.get("imp")), obs["exc"])))
             else:
                 v.append(("raised-without-fault", "no FMS, fault-free layout, constructor raised %s" % obs["exc"]))
     else:
@@ -1149,7 +1169,7 @@ def import_text(imp):
     if not imp:
         return "?"
     if imp[0] == "importerror":
-        return "ImportError(name=%r)" % (imp[1],)
+        return "%s(name=%r)" % ("ModuleNotFoundError" if imp[1] else "ImportError", imp[2])
     return {"ok": "nothing", "other": "an exception other than ImportError"}.get(imp[0], imp[0])
 
 
@@ -1288,29 +1308,17 @@ def oracle_lifecycle(obs, modes):
 # ---------------------------------------------------------------------------
 # the check
 
-def open_fingerprints():
-    """fingerprints listed as open findings of this property in known_findings.json"""
-    from .common import load_known
-    return set(k.get("fingerprint") for k in load_known() if k.get("property") == PID and k.get("status") == "open")
-
-
 def load_corpus():
-    """[(file name, case)]; a case on which the library is known to depart from the property (one of CANDIDATE_KINDS)
-    is run only once its fingerprint is an open finding -- then it is a witness like 01_ and 02_"""
+    """[(file name, case)]"""
     d = os.path.join(CORPUS, PID)
     out = []
-    registered = open_fingerprints()
     if os.path.isdir(d):
         for n in sorted(os.listdir(d)):
             if n.endswith(".json"):
                 try:
-                    case = json.load(open(os.path.join(d, n)))["case"]
+                    out.append((n, json.load(open(os.path.join(d, n)))["case"]))
                 except Exception:
-                    continue
-                fp = CANDIDATE_KINDS.get(case["pkg"]["kind"])
-                if fp is not None and fp not in registered:
-                    continue
-                out.append((n, case))
+                    pass
     return out
 
 
@@ -1488,7 +1496,7 @@ def run(ctx):
     # the witnesses of the open known findings are replayed on every run
     known = []
     for k, (n, c) in enumerate(corpus):
-        if (n in WITNESSES or c["pkg"]["kind"] in CANDIDATE_KINDS) and not obs[k].get("harness_error"):
+        if n in WITNESSES and not obs[k].get("harness_error"):
             kv = violation_of(c, obs[k], base, known=True)
             if kv:
                 kv["witness"] = "corpus/%s/%s" % (PID, n)
@@ -1507,13 +1515,15 @@ def import_class(pkg, imp):
     if imp[0] != "importerror":
         return {"ok": "ok", "other": "exception-other-than-ImportError"}.get(imp[0], imp[0])
     name = pkg_import_name(pkg)
-    if imp[1] is None:
-        return "ImportError:name-is-None"
-    if imp[1] in (name, name.split(".")[0]):
-        return "ImportError:names-the-package-or-its-first-component"
-    if imp[1].split(".")[0] == name.split(".")[0]:
-        return "ImportError:names-another-module-under-the-same-top-level-name"
-    return "ImportError:names-an-unrelated-module"
+    cls = "ModuleNotFoundError" if imp[1] else "plain-ImportError"
+    if imp[2] is None:
+        return cls + ":name-is-None"
+    if (name + ".").startswith(imp[2] + "."):
+        lvl = "the-package" if imp[2] == name else "its-first-component" if "." not in imp[2] else "a-package-in-the-middle"
+        return cls + ":names-" + lvl
+    if imp[2].split(".")[0] == name.split(".")[0]:
+        return cls + ":names-another-module-under-the-same-top-level-name"
+    return cls + ":names-an-unrelated-module"
 
 
 def count_changed_open(mops):
@@ -1534,7 +1544,7 @@ def count_changed_open(mops):
 
 def violation_of(case, obs, base, known=False):
     """first violation of the property on this observation; the open known findings only when asked for"""
-    vs = [x for x in oracle(case, obs, base) if (x[0] in KNOWN_FPS or x[0] in CANDIDATE_KINDS.values()) == known]
+    vs = [x for x in oracle(case, obs, base) if (x[0] in KNOWN_FPS) == known]
     if not vs:
         return None
     fp, text = vs[0]
